@@ -23,7 +23,7 @@ import (
 // keptTraceCacheEntry is an internal record we leave behind when keeping a trace to remember
 // our decision for the future. We only store them if the record was kept.
 type keptTraceCacheEntry struct {
-	rate           uint32        // sample rate used when sending the trace
+	rate           uint          // sample rate used when sending the trace (not truncated: rates can exceed 32 bits)
 	reason         uint32        // which rule was used to decide to keep the trace
 	eventCount     atomic.Uint32 // number of descendants in the trace (we decorate the root span with this)
 	spanEventCount atomic.Uint32 // number of span events in the trace
@@ -50,7 +50,7 @@ func NewKeptTraceCacheEntry(t KeptTrace) *keptTraceCacheEntry {
 	}
 
 	entry := &keptTraceCacheEntry{
-		rate:   uint32(t.SampleRate()),
+		rate:   t.SampleRate(),
 		reason: uint32(t.KeptReason()),
 	}
 	entry.eventCount.Store(t.DescendantCount())
@@ -65,7 +65,7 @@ func (t *keptTraceCacheEntry) Kept() bool {
 }
 
 func (t *keptTraceCacheEntry) Rate() uint {
-	return uint(t.rate)
+	return t.rate
 }
 
 // DescendantCount returns the count of items associated with the trace, including all types of children like span links and span events.
